@@ -446,7 +446,7 @@ def monitor(case, obs):
         pass
     elif obs["rc"] not in (0, 1):
         hits.append({"prop": "C13", "key": f"bad-exit:{case['input']}->{_fmt(case)}", "what": f"{' '.join(obs['argv'])}: exit status {obs['rc']}; stderr {obs['err'][:120]!r}"})
-    elif obs["rc"] == 1 and obs.get("out_len", 0) == 0 and re.search(r"^Error (parsing|deserializing) ", obs.get("err", ""), re.M):
+    elif obs["rc"] == 1 and re.search(r"^Error (parsing|deserializing) ", obs.get("err", ""), re.M):
         pass        # a file the loader reports as unreadable (docsets with values that have no node type): no comparison took place
     elif case["same"] and obs["rc"] != 0:
         hits.append({"prop": "C02", "key": f"same-file-exit-1:{case['input']}", "what": f"{' '.join(obs['argv'])}: identical files but exit status 1"})
